@@ -5,7 +5,7 @@ out=/verif/seeded/RESULTS.txt
 : > $out
 for d in /verif/seeded/C*/; do
   id=$(basename $d)
-  /verif/scripts/seedrun.sh $id $tier $id | grep '^seeded=' >> $out
-  rm -f /verif/replays/found/${id}-*.json
+  /verif/scripts/seedrun.sh $id $tier ${id%%-*} | grep '^seeded=' >> $out
+  rm -f /verif/replays/found/${id%%-*}-*.json
 done
 cat $out
